@@ -199,6 +199,8 @@ func (gen *Generator) GenerateDef(args []Sexp, opname string) error {
 		return fmt.Errorf("Wrong number of arguments to %s", opname)
 	}
 	Q("GenerateDef call with args[0]=%v", args[0].SexpString(nil))
+	// neither the assignment target nor the value is in tail position
+	gen.Tail = false
 	dup := true
 	var instr Instruction
 	switch args[0].(type) {
